@@ -101,8 +101,8 @@ QuickTimes == {<<0, 0>>, <<0, 1>>, <<11, 59>>, <<12, 0>>, <<23, 59>>}
 QuickRefs == {<<1970, 1, 1, 0, 0>>, <<1979, 1, 1, 0, 0>>, <<2000, 2, 29, 12, 30>>, <<2023, 12, 31, 23, 59>>}
 QuickShifts == {-1, 1, 7}
 ThoroughYears == {1970, 1972, 1979, 1980, 1999, 2000, 2001, 2019, 2020, 2024, 2038, 2096, 2100}
-ThoroughMonthDays == {<<m, d>> : m \in 1..12, d \in {1, 15, 28, 29, 30, 31}}
-ThoroughTimes == {<<0, 0>>, <<0, 1>>, <<5, 59>>, <<6, 0>>, <<11, 59>>, <<12, 0>>, <<17, 43>>, <<23, 59>>}
+ThoroughMonthDays == {<<m, d>> : m \in 1..12, d \in {1, 28, 29, 30, 31}}
+ThoroughTimes == {<<0, 0>>, <<0, 1>>, <<6, 0>>, <<11, 59>>, <<17, 43>>, <<23, 59>>}
 ThoroughRefs == QuickRefs \cup {<<2100, 3, 1, 6, 0>>}
 ThoroughShifts == {-30, -1, 1, 7, 40}
 
@@ -114,7 +114,11 @@ Ordered(S) == IF S = {} THEN <<>>
               ELSE LET m == CHOOSE x \in S : \A y \in S : x <= y IN <<m>> \o Ordered(S \ {m})
 
 -----------------------------------------------------------------------------
-Init == /\ ref \in Refs /\ when \in ValidStamps \cup Refs /\ sid \in ScaleIds
+(* the time scale does not interact with the calendar: one scale per (ref, when), chosen so
+   that every scale meets every reference and every kind of stamp *)
+ScaleSeq == SelectSeq([i \in DOMAIN TimeScaleTable |-> TimeScaleTable[i].id], LAMBDA x : x \in ScaleIds)
+PickScale(r, w) == ScaleSeq[((DaysFromCivil(w[1], w[2], w[3]) + w[4] + w[5] + r[1]) % Len(ScaleSeq)) + 1]
+Init == /\ ref \in Refs /\ when \in ValidStamps \cup Refs /\ sid = PickScale(ref, when)
         /\ pc = "run" /\ todo = Program /\ res = [o \in {} |-> 0]
 
 Put(name, val) == /\ res' = [o \in DOMAIN res \cup {name} |-> IF o = name THEN val ELSE res[o]]
